@@ -114,6 +114,8 @@ def gen_c02(r):
         # connected peer the client is not interested in: see the admission rule above)
         peers.append(dict(port=7300, id="-FK0300-abcdefghijkl", incoming=True, have=[False] * n, seed=0, kind="mute", connect_delay_ms=r.choice([0, 50, 150]), hold_s=60))
     g.update(peers=peers, tracker_faults=faults, tracker_port=8000, timeout_s=90, stall_s=15, tracker_delivery=r.choice(["whole", "whole", "split", "chunked"]))
+    if r.random() < 0.15:
+        g["stdout_closed"] = True  # `rdest get x | head`: nobody reads what the client prints
     return g
 
 
@@ -289,6 +291,15 @@ def gen_c20(r, long=False, silent=False):
     return g
 
 
+def gen_c06_tiny_handshake(r):
+    """The only seeder connects in and writes everything, its handshake included, in segments of a
+    few bytes: what the client decodes may not depend on where TCP cut the stream."""
+    g, n = gen_geometry(r)
+    peers = [dict(port=7001, id="-FK0000-abcdefghijkl", incoming=True, have=[True] * n, seed=r.getrandbits(32), chunk=r.choice([1, 2, 3, 5, 7, 19]), latency_ms=0, unchoke_delay_ms=0, connect_delay_ms=200, noise_permille=r.choice([0, 300]))]
+    g.update(peers=peers, tracker_faults=[], tracker_port=8000, timeout_s=120, stall_s=15)
+    return g
+
+
 def gen_c01_mislabel(r):
     """An honest seeder and one that answers the first two blocks of a piece with the right bytes
     under each other's offsets (in arrival order they still concatenate to the true piece)."""
@@ -304,6 +315,8 @@ def gen_c01_mislabel(r):
 
 def gen_c01(r):
     g = gen_c02(r)
+    if r.random() < 0.34:
+        g["leftover_piece"] = r.randrange(64)  # a damaged piece file left from an earlier run
     n = len(g["peers"][0]["have"])
     g["peers"].append(dict(port=7090, id="-FK0090-abcdefghijkl", incoming=False, have=[True] * n, seed=r.getrandbits(32), chunk=0,
                            latency_ms=0, unchoke_delay_ms=0, corrupt_permille=r.choice([100, 300, 600])))
@@ -315,7 +328,11 @@ def gen_c19(r, length=None):
     for p in g["peers"]:
         p["incoming"] = False
     l = length if length is not None else r.randint(1, 4)
-    g["tracker_faults"] = [r.choice(["close", "http500", "garbage", "failure"]) for _ in range(l)]
+    g["tracker_faults"] = [r.choice(["close", "http500", "garbage", "failure", "slow500"]) for _ in range(l)]
+    if l >= 3:
+        # somebody connects in while the announces are still failing: the session has to serve it
+        n = len(g["peers"][0]["have"])
+        g["peers"].append(dict(port=7400, id="-FK0400-abcdefghijkl", incoming=True, have=[False] * n, seed=0, chunk=0, latency_ms=0, unchoke_delay_ms=-1, connect_delay_ms=r.choice([300, 800, 1500]), probe=True))
     g["timeout_s"] = 60 + 2 * l
     g["tracker_delivery"] = r.choice(["whole", "split", "chunked"])
     for p in g["peers"]:
@@ -351,9 +368,9 @@ def _judge_cell(cid, tag, asan, sc, res, m, shapes):
     """Verdict of one real-process run (shared by the engine and by --replay)."""
     m["evaluations"] += 1
     v = res.get("verdict")
-    desc = {k: sc[k] for k in ("piece_length", "files", "single", "tracker_faults")} | {k: sc[k] for k in ("tracker_delivery", "torrent_rel", "hostile_name") if k in sc}
+    desc = {k: sc[k] for k in ("piece_length", "files", "single", "tracker_faults")} | {k: sc[k] for k in ("tracker_delivery", "torrent_rel", "hostile_name", "leftover_piece", "stdout_closed") if k in sc}
     desc["peers"] = [{k: p.get(k) for k in ("port", "host", "id_hex", "incoming", "chunk", "latency_ms", "choke_after_blocks", "disconnect_after_blocks", "mid_frame", "corrupt_permille", "noise_permille", "kind", "script", "connect_delay_ms", "handshake_delay_ms", "keepalive_every_s", "second_connection_from_own_port", "second_after_ms", "second_linger_ms") if p.get(k) is not None} | {"pieces": "".join("1" if b else "0" for b in p["have"])} for p in sc["peers"]]
-    wit = {"engine": tag, "scenario": desc, "scenario_full": sc if len(json.dumps(sc)) < 200000 else None, "result": {k: res.get(k) for k in ("verdict", "detail", "elapsed_s", "panics", "sanitizer", "piece_problems", "hostile", "closed_by_client", "conn_life", "outside_start_dir", "peak_rss_kb", "log_tail", "stdout_tail")}}
+    wit = {"engine": tag, "scenario": desc, "scenario_full": sc if len(json.dumps(sc)) < 200000 else None, "result": {k: res.get(k) for k in ("verdict", "detail", "elapsed_s", "panics", "sanitizer", "piece_problems", "hostile", "closed_by_client", "conn_life", "handshake_reply_s", "outside_start_dir", "peak_rss_kb", "log_tail", "stdout_tail")}}
     _count(m, "%s:%s" % (tag, v))
     if res.get("sanitizer"):
         _viol(m, "%s:%s:sanitizer-report" % (cid, tag), "AddressSanitizer report in the client: %s" % res["sanitizer"][:2], wit)
@@ -423,6 +440,10 @@ def _judge_cell(cid, tag, asan, sc, res, m, shapes):
         if not asan and rss > 200_000:
             _viol(m, "C06:%s:unbounded-buffering" % tag, "peak resident set of the client %d kB with peers sending at most a few hundred kB" % rss, wit)
             return
+    if cid == "C19" and any(h.get("after_s", 0) > 5 for h in res.get("handshake_reply_s", [])):
+        slow = [h for h in res["handshake_reply_s"] if h.get("after_s", 0) > 5][0]
+        _viol(m, "C19:%s:not-serving-while-tracker-fails" % tag, "a peer connected in at t=%.1f s (good tracker replies so far: %d); the client answered its handshake only %.1f s later" % (slow["at_s"], slow["good_replies_then"], slow["after_s"]), wit)
+        return
     if v == "complete":
         if res.get("unexpected_files"):
             _viol(m, "%s:%s:unexpected-output" % (cid, tag), "unexpected files %s" % res["unexpected_files"], wit)
@@ -470,6 +491,8 @@ def e2e(cid, tier, seed, jobs, scale, outdir, m, log, asan=False):
         scs += [gen_c02_incoming_churn(r), gen_c02_late_handshake(r), gen_c02_late_handshake(r), gen_c02_late_handshake(r)] + [gen_c02_same_address_twice(r) for _ in range(4)]
         if tier == "thorough":
             scs += [gen_c02_incoming_churn(r) for _ in range(8)] + [gen_c02_late_handshake(r) for _ in range(24)] + [gen_c02_same_address_twice(r) for _ in range(40)]
+    if cid == "C06":
+        scs += [gen_c06_tiny_handshake(r) for _ in range(4 if tier == "quick" else 40)]
     if cid == "C01" and not asan:
         scs += [gen_c01_mislabel(r) for _ in range(4 if tier == "quick" else 60)]
     if cid == "C20" and not asan and tier == "thorough":
